@@ -68,7 +68,7 @@ pub fn shipped_pure_cases() -> Vec<PureCase> {
 }
 
 pub fn reduced_grid(tier: Tier, tr_min: f64) -> Vec<f64> {
-    let n = tier.pick(28, 217);
+    let n = tier.pick(55, 217);
     (0..n)
         .map(|i| 0.45 + (0.99 - 0.45) * i as f64 / (n - 1) as f64)
         .filter(|t| *t >= tr_min - 1e-12)
@@ -226,7 +226,7 @@ fn short(s: &str) -> String {
 }
 
 fn phase_diagrams(m: &mut Monitor, cfg: &Config, cases: &[PureCase]) {
-    let n = cfg.tier.pick(40, 600);
+    let n = cfg.tier.pick(150, 600);
     let idx: Vec<u64> = (0..n).collect();
     par_cases(m, &idx, |m, _, &i| {
         let mut rng = Rng::derive(cfg.seed, "c04-diagram", i);
@@ -297,7 +297,7 @@ fn phase_diagrams(m: &mut Monitor, cfg: &Config, cases: &[PureCase]) {
 /// vapor_pressure / boiling_temperature / vle_pure_comps on mixtures equal the pure-model call
 fn mixture_helpers(m: &mut Monitor, cfg: &Config) {
     let col = Collections::load();
-    let n = cfg.tier.pick(60, 1500);
+    let n = cfg.tier.pick(250, 1500);
     let idx: Vec<u64> = (0..n).collect();
     par_cases(m, &idx, |m, _, &i| {
         let mut rng = Rng::derive(cfg.seed, "c04-mix", i);
@@ -363,7 +363,7 @@ fn mixture_helpers(m: &mut Monitor, cfg: &Config) {
 
 /// conditions whenever Ok for random PR / PeTS / uv-theory models and random T
 fn random_models(m: &mut Monitor, cfg: &Config) {
-    let n = cfg.tier.pick(300, 10_000);
+    let n = cfg.tier.pick(1500, 10_000);
     let idx: Vec<u64> = (0..n).collect();
     let col = Collections::load();
     par_cases(m, &idx, |m, _, &i| {
